@@ -123,15 +123,23 @@ Definition cmd_init : M (list bytes) :=
 (* the config file is line based: an empty section name, or a line feed in
    "<section>.<key>" or in the value, would write a file that no command can
    load any more; such a call is refused before anything is created or written *)
-Definition config_args_ok (sec key value : bytes) : bool :=
+Definition config_lines_ok (sec key value : bytes) : bool :=
   negb (is_nil sec) && negb (contains_byte c_nl key) && negb (contains_byte c_nl value).
+(* the loader reads a key back up to the first '=', without tabs and without
+   surrounding white space: a key with an '=' or a TAB in it, or with leading or
+   trailing white space, would be taken for (and overwrite) ANOTHER key; such a
+   key is refused as well (an empty key is not) *)
+Definition config_key_ok (k : bytes) : bool :=
+  negb (contains_byte x3d k) && negb (contains_byte c_tab k) && bytes_eqb (trim_space k) k.
+Definition config_args_ok (sec k key value : bytes) : bool :=
+  config_lines_ok sec key value && config_key_ok k.
 
 Definition cmd_config (c : ctx) (global : bool) (args : list bytes) : M (list bytes) :=
   match args with
   | [key; value] =>
     match split_all x2e key with
     | [sec; k] =>
-      guard (config_args_ok sec key value) ;;;
+      guard (config_args_ok sec k key value) ;;;
       w <- getw ;;
       (if global then
          match w_gcfg w with
